@@ -8,7 +8,7 @@
    The models are tied to the code by the leaf-level runs of harness/props/packleaf.py (exhaustive
    small-block grids against the real method; record positions decoded from real images), and
    the property itself is evaluated on every generated image by the independent reader. *)
-From Coq Require Import ZArith List Bool.
+From Coq Require Import ZArith List Bool Sorted Permutation.
 From PV.Model Require Import Pack Checksums.
 From PV.Base Require Import Prim Upd.
 From PV.Proofs Require Import PackProofs ChecksumsArithProofs PackGenProofs.
